@@ -186,6 +186,7 @@ def run(ctx):
     wtasks = [(p, wb) for p in WRITER_PAIRS] + [(t, 1 if ctx.quick else 2) for t in WRITER_TRIPLES]
     pmap_acc(work_writers, ctx.order(wtasks), ctx.acc, jobs=ctx.jobs)
     pmap_acc(work_process_exit, [[b] for b in sorted(_B_PROGRAMS)], ctx.acc, jobs=ctx.jobs)
+    tla_conformance(ctx)
     kinds = ["ENOSPC", "EIO", "EPERM", "KeyboardInterrupt"]
     ftasks = [(name, kinds, not ctx.quick) for name in ctx.order(sorted(FAULT_SCENARIOS))]
     pmap_acc(work_faults, ftasks, ctx.acc, jobs=ctx.jobs)
@@ -194,7 +195,9 @@ def run(ctx):
     ctx.coverage.update(
         states=n.get("points", 0),
         transitions=n.get("points", 0),
-        traces_validated_against_impl=n.get("executions", 0),
+        traces_validated_against_impl=n.get("executions", 0) + n.get("tla_transitions_validated_against_impl", 0),
+        tla_model={"file": "models/LockFile.tla", "states": n.get("tla_states", 0), "transitions": n.get("tla_transitions", 0),
+                   "transitions_replayed_on_implementation": n.get("tla_transitions_validated_against_impl", 0)},
         evaluations=n.get("executions", 0),
         distinct_nontrivial=len(ctx.acc.classes),
         rule="E1: every interleaving at system-call granularity with <= bound preemptions of real GitFile programs; "
@@ -755,3 +758,181 @@ def work_process_exit(task):
     for b in task:
         case_process_exit(acc, b)
     return acc
+
+
+# =========================================================================== (5) TLA+ model, conformance-replayed
+
+import re  # noqa: E402
+
+
+def _parse_tlc_dot(text):
+    """-> (init_id, {id: state dict}, [(src, label, dst)]) from TLC's `-dump dot,actionlabels` output."""
+    states = {}
+    edges = []
+    init = None
+    for m in re.finditer(r'^(-?\d+) \[label="((?:[^"\\]|\\.)*)"(,style = filled)?', text, re.M):
+        sid, label, filled = m.group(1), m.group(2), m.group(3)
+        lab = label.replace('\\n', '\n').replace('\\"', '"').replace('\\\\', '\\')
+        st = {}
+        st["lock"] = re.search(r"lock = (\w+)", lab).group(1)
+        mm = re.search(r'last = <<(\w+), "(\w+)">>', lab)
+        st["last"] = (mm.group(1), mm.group(2))
+        st["round"] = {a: int(n) for a, n in re.findall(r"(a\d) :> (\d+)", re.search(r"round = \(([^)]*)\)", lab).group(1))}
+        mm = re.search(r"content = (None|<<(a\d), (\d+)>>)", lab)
+        st["content"] = None if mm.group(1) == "None" else (mm.group(2), int(mm.group(3)))
+        st["pc"] = dict(re.findall(r'(a\d) :> "(\w+)"', re.search(r"pc = \(([^)]*)\)", lab).group(1)))
+        states[sid] = st
+        if filled:
+            init = sid
+    for m in re.finditer(r'^(-?\d+) -> (-?\d+) \[label="(\w+)\((a\d)\)"', text, re.M):
+        edges.append((m.group(1), (m.group(3), m.group(4)), m.group(2)))
+    return init, states, edges
+
+
+class _LockImpl:
+    """The real implementation driven at API-call granularity, with the abstraction function to model states."""
+
+    def __init__(self, d, rounds):
+        from dulwich.file import GitFile  # noqa: F401
+
+        self.path = os.path.join(d, "f")
+        with open(self.path, "wb") as f:
+            f.write(INITIAL)
+        self.handles = {}
+        self.round = {}
+        self.last = ("None", "init")
+
+    def step(self, act, a):
+        from dulwich.file import FileLocked, GitFile
+
+        r = self.round.get(a, 0)
+        if act == "Acquire":
+            try:
+                self.handles[a] = GitFile(self.path, "wb")
+                self.last = (a, "acquired")
+            except FileLocked:
+                self.round[a] = r + 1
+                self.last = (a, "locked")
+        elif act == "Commit":
+            f = self.handles.pop(a)
+            f.write(b"payload-%s-%d\n" % (a.encode(), r))
+            f.close()
+            self.round[a] = r + 1
+            self.last = (a, "committed")
+        elif act == "Abort":
+            f = self.handles.pop(a)
+            f.write(b"discarded-%s-%d\n" % (a.encode(), r))
+            f.abort()
+            self.round[a] = r + 1
+            self.last = (a, "aborted")
+
+    def abstract(self, actors):
+        with open(self.path, "rb") as f:
+            raw = f.read()
+        if raw == INITIAL:
+            content = None
+        else:
+            m = re.fullmatch(rb"payload-(a\d)-(\d+)\n", raw)
+            content = (m.group(1).decode(), int(m.group(2))) if m else ("?", raw[:30])
+        lock_exists = os.path.exists(self.path + ".lock")
+        holders = sorted(self.handles)
+        lock = holders[0] if lock_exists and len(holders) == 1 else ("None" if not lock_exists and not holders else "INCONSISTENT lockfile=%s holders=%r" % (lock_exists, holders))
+        return {"lock": lock, "last": self.last, "round": {a: self.round.get(a, 0) for a in actors}, "content": content,
+                "pc": {a: ("holding" if a in self.handles else "idle") for a in actors}}
+
+    def close(self):
+        for f in self.handles.values():
+            try:
+                f.abort()
+            except Exception:
+                pass
+
+
+def tla_conformance(ctx):
+    """TLC explores the complete state graph of models/LockFile.tla (3 actors x 2 rounds, no preemption bound at
+    API-call granularity) with its invariants; then EVERY transition of the dumped graph is replayed on the real
+    _GitFile: the implementation is driven along a shortest model path to the source state, the abstraction of the
+    real state must equal the model state, the action is executed and the result must equal the destination state."""
+    from engines.common import VERIF, fresh_dir, rmtree
+
+    acc = ctx.acc
+    d = fresh_dir("tla")
+    try:
+        dot = os.path.join(d, "graph.dot")
+        p = subprocess.run(["tlc", "-workers", "1", "-noGenerateSpecTE", "-metadir", os.path.join(d, "meta"), "-dump", "dot,actionlabels", dot,
+                            "-config", "LockFile.cfg", "LockFile.tla"], cwd=os.path.join(VERIF, "models"), capture_output=True, text=True, timeout=600)
+        if "Model checking completed. No error has been found." not in p.stdout:
+            raise HarnessError("TLC did not complete cleanly:\n" + p.stdout[-1500:] + p.stderr[-500:])
+        init, states, edges = _parse_tlc_dot(open(dot).read())
+        if init is None or not edges:
+            raise HarnessError("could not parse TLC's state graph")
+        actors = sorted(states[init]["pc"])
+        # shortest path (as action list) to every state
+        out = {}
+        for s, lab, t in edges:
+            out.setdefault(s, []).append((lab, t))
+        path = {init: []}
+        frontier = [init]
+        while frontier:
+            nxt = []
+            for s in frontier:
+                for lab, t in sorted(out.get(s, [])):
+                    if t not in path:
+                        path[t] = path[s] + [lab]
+                        nxt.append(t)
+            frontier = nxt
+        if set(path) != set(states):
+            raise HarnessError("unreachable states in TLC's dump")
+        acc.count("tla_states", len(states))
+        acc.count("tla_transitions", len(edges))
+        n_ok = 0
+        for s, (act, a), t in sorted(edges):
+            dd = os.path.join(d, "r%d" % n_ok)
+            os.makedirs(dd, exist_ok=True)
+            impl = _LockImpl(dd, 2)
+            try:
+                for pa, paa in path[s]:
+                    impl.step(pa, paa)
+                got_s = impl.abstract(actors)
+                # `last` of the source state depends on which path reached it; compare the path-independent part
+                cmp_s = {k: v for k, v in got_s.items() if k != "last"}
+                if cmp_s != {k: v for k, v in states[s].items() if k != "last"}:
+                    acc.violation("tla:conformance:implementation-state-differs-from-model-state",
+                                  "after model path %r the implementation is %r, the model %r" % (path[s], got_s, states[s]),
+                                  rp("case_tla_path", [list(x) for x in path[s]], [act, a]))
+                    continue
+                try:
+                    impl.step(act, a)
+                    got_t = impl.abstract(actors)
+                except Exception as e:
+                    got_t = {"raised": "%s: %s" % (type(e).__name__, e)}
+                if got_t != states[t]:
+                    acc.violation("tla:conformance:%s-differs-from-model" % act,
+                                  "from %r, %s(%s): implementation %r, model %r" % (states[s], act, a, got_t, states[t]),
+                                  rp("case_tla_path", [list(x) for x in path[s]], [act, a]))
+                    continue
+                n_ok += 1
+            finally:
+                impl.close()
+                rmtree(dd)
+        acc.count("tla_transitions_validated_against_impl", n_ok)
+        acc.outcome("tla:states=%d transitions=%d" % (len(states), len(edges)))
+        acc.sample({"tla_model": "models/LockFile.tla (3 actors x 2 rounds)", "states": len(states), "transitions": len(edges),
+                    "transitions_replayed_on_GitFile": n_ok, "longest_path": max(len(v) for v in path.values())}, cap=20)
+    finally:
+        rmtree(d)
+
+
+def case_tla_path(acc, prefix, last):
+    """Replay: drive the real _GitFile along a model path and report what the abstraction shows."""
+    from engines.common import fresh_dir, rmtree
+
+    d = fresh_dir("tlar")
+    impl = _LockImpl(d, 2)
+    try:
+        for act, a in list(prefix) + [last]:
+            impl.step(act, a)
+        acc.note("tla_replay_state", repr(impl.abstract(sorted({a for _, a in list(prefix) + [last]}))))
+    finally:
+        impl.close()
+        rmtree(d)
